@@ -20,8 +20,7 @@ def check_steps(sc, steps, out=print):
         P = {k: st[k] for k in ("dt", "beta", "gamma", "alpha") if k in st}
         prev, new = rec["prev"], rec["new"]
         tag = "step %d %s %s" % (n, algo, P)
-        for name, r in O.update_residuals(algo, P, prev, new):
-            sc_ = O.scale(prev["u"], prev["v"], prev["a"], new["u"], new["v"], new["a"])
+        for name, r, sc_ in O.update_residuals(algo, P, prev, new):
             m = max(abs(x) for x in r)
             if m > TOL * sc_:
                 bad.append("%s: update relation `%s` violated: max residual %.3e (scale %.3e)" % (tag, name, m, sc_))
@@ -75,12 +74,12 @@ def check_steps(sc, steps, out=print):
         E = [O.energy(K, M, steps[0]["prev"]["u"], steps[0]["prev"]["v"])] + [O.energy(K, M, r["new"]["u"], r["new"]["v"]) for r in steps]
         start = en.get("from_step", 0)
         for n, r in enumerate(steps):
-            if "E_impl" in r and abs(r["E_impl"] - E[n + 1]) > 1e-9 * max(1.0, abs(E[n + 1])):
+            if "E_impl" in r and abs(r["E_impl"] - E[n + 1]) > 1e-9 * abs(E[n + 1]):
                 bad.append("step %d %s: simu.Calc_Energy gives %.12e but 1/2 v'Mv + 1/2 u'Ku = %.12e" % (n, sc["steps"][n]["algo"], r["E_impl"], E[n + 1]))
         for n in range(start, len(steps)):
             algo = sc["steps"][n]["algo"]
             d = E[n + 1] - E[n]
-            tol = 1e-9 * max(1.0, abs(E[0]))
+            tol = 1e-9 * max(abs(e) for e in E)      # relative to the run's own energy level (scale invariant)
             if algo == "euler_implicit":
                 if d > tol:
                     bad.append("step %d euler_implicit: energy increased by %.3e (E=%.6e)" % (n, d, E[n]))
